@@ -49,8 +49,10 @@ func (pythonTarget) RunCells(e *Env, cells []*Cell) {
 			e.cachePut(key, encodeCached(c, nil))
 			return
 		}
-		so, se, err := Run(dir, 300*time.Second, []string{"PYTHONPATH=" + e.Runtime("python") + ":" + dir, "PYTHONDONTWRITEBYTECODE=1"}, inputBytes(c),
-			"python3", filepath.Join(e.Runtime("python"), "driver.py"), dir, mod)
+		so, se, err := runSegments(c, func(in []byte) ([]byte, []byte, error) {
+			return Run(dir, 300*time.Second, []string{"PYTHONPATH=" + e.Runtime("python") + ":" + dir, "PYTHONDONTWRITEBYTECODE=1"}, in,
+				"python3", filepath.Join(e.Runtime("python"), "driver.py"), dir, mod)
+		})
 		if err != nil && len(so) == 0 {
 			c.Stage, c.BuildLog = "run", fmt.Sprintf("%v\n%s", err, trunc(se, 4000))
 			e.cachePut(key, encodeCached(c, nil))
